@@ -304,8 +304,8 @@ async fn run_extractor(c: &StreamCase<'_>, evs: Vec<Ev>, cnt: Rc<Counters>) -> O
     }
     let mut req = TestRequest::post();
     match c.ex {
-        "json" => req = req.insert_header(("content-type", "application/json")),
-        "form" => req = req.insert_header(("content-type", "application/x-www-form-urlencoded")),
+        "json" | "jb" => req = req.insert_header(("content-type", "application/json")),
+        "form" | "ue" => req = req.insert_header(("content-type", "application/x-www-form-urlencoded")),
         _ => {}
     }
     match c.cl {
@@ -382,6 +382,54 @@ async fn run_extractor(c: &StreamCase<'_>, evs: Vec<Ev>, cnt: Rc<Counters>) -> O
                 Obs { res, st: status(&e), osz, data: None }
             }
         },
+        "jb" => {
+            let mut fut = web::JsonBody::<String>::new(&req, &mut pl, None, true);
+            if let Some(l) = c.lim {
+                fut = fut.limit(l);
+            }
+            match fut.await {
+                Ok(s) => Obs { res: ok_tok(s.as_bytes()), st: "-".into(), osz, data: Some(s.into_bytes()) },
+                Err(e) => {
+                    use actix_web::ResponseError as _;
+                    let res = match &e {
+                        JsonPayloadError::Overflow { .. } => "overflow".into(),
+                        JsonPayloadError::OverflowKnownLength { length, .. } => format!("overflow-known:{}", length),
+                        JsonPayloadError::Deserialize(_) => "parse-err".into(),
+                        JsonPayloadError::Payload(p) => payload_err(p),
+                        o => format!("other:{:?}", o).replace(' ', "_"),
+                    };
+                    Obs { res, st: e.status_code().as_u16().to_string(), osz, data: None }
+                }
+            }
+        }
+        "ue" => {
+            let mut fut = web::UrlEncoded::<FormT>::new(&req, &mut pl);
+            if let Some(l) = c.lim {
+                fut = fut.limit(l);
+            }
+            match fut.await {
+                Ok(f) => Obs { res: ok_tok(f.a.as_bytes()), st: "-".into(), osz, data: Some(f.a.into_bytes()) },
+                Err(e) => {
+                    use actix_web::ResponseError as _;
+                    let res = match &e {
+                        UrlencodedError::Overflow { size, limit } => {
+                            let declared: Option<usize> = c.cl.parse().ok();
+                            if declared == Some(*size) && *size > *limit {
+                                format!("overflow-known:{}", size)
+                            } else {
+                                osz = size.to_string();
+                                "overflow".into()
+                            }
+                        }
+                        UrlencodedError::UnknownLength => "unknown-length".into(),
+                        UrlencodedError::Parse(_) => "parse-err".into(),
+                        UrlencodedError::Payload(p) => payload_err(p),
+                        o => format!("other:{:?}", o).replace(' ', "_"),
+                    };
+                    Obs { res, st: e.status_code().as_u16().to_string(), osz, data: None }
+                }
+            }
+        }
         "tbl" => {
             let p = web::Payload::from_request(&req, &mut pl).await.unwrap();
             match p.to_bytes_limited(c.lim.unwrap_or(0)).await {
@@ -445,8 +493,9 @@ fn run_stream(case: &str, ex: &str) -> CaseResult {
     let evs = script(&wire, &toks);
     let sc = StreamCase { ex, lim, cl, enc };
     let eff_limit = lim.unwrap_or(match ex {
-        "json" => 2_097_152,
+        "json" | "jb" => 2_097_152,
         "form" => 16_384,
+        "ue" => 32_768,
         _ => 262_144,
     });
 
@@ -494,8 +543,8 @@ fn run_stream(case: &str, ex: &str) -> CaseResult {
     // (1) success only within the limit, and with exactly the body that was sent
     if let Some(d) = &obs.data {
         let expect: &[u8] = match ex {
-            "json" => if plain.len() >= 2 { &plain[1..plain.len() - 1] } else { &plain },
-            "form" => if plain.len() >= 2 { &plain[2..] } else { &plain },
+            "json" | "jb" => if plain.len() >= 2 { &plain[1..plain.len() - 1] } else { &plain },
+            "form" | "ue" => if plain.len() >= 2 { &plain[2..] } else { &plain },
             _ => &plain,
         };
         let tbs_shortcut = ex == "tbs" && (cl == "bad" || cl == "0");
@@ -508,7 +557,7 @@ fn run_stream(case: &str, ex: &str) -> CaseResult {
         }
     }
     // (2) a complete body over the limit fails, and with the overflow error
-    let cl_unparsable_refuses = cl == "bad" && matches!(ex, "bytes" | "string" | "form");
+    let cl_unparsable_refuses = cl == "bad" && matches!(ex, "bytes" | "string" | "form" | "ue");
     if complete && plain.len() > eff_limit && !cl_unparsable_refuses && !(ex == "tbs" && (cl == "bad" || cl == "0")) {
         if !overflow_class(&obs.res) {
             r = r.fail("over-limit-not-overflow", format!("{} bytes, limit {}: {}", plain.len(), eff_limit, obs.res));
@@ -519,7 +568,7 @@ fn run_stream(case: &str, ex: &str) -> CaseResult {
     // (3) a complete body within the limit, with no declared length (or one within the limit), succeeds
     //     (or fails only in post-processing)
     let declared: Option<usize> = cl.parse().ok();
-    let decl_ok = cl == "none" || declared.map_or(false, |d| d <= eff_limit) || ex == "tbl" || (ex == "json" && cl == "bad");
+    let decl_ok = cl == "none" || declared.map_or(false, |d| d <= eff_limit) || ex == "tbl" || ((ex == "json" || ex == "jb") && cl == "bad") || (ex == "jb" && lim.is_none());
     if complete && plain.len() <= eff_limit && decl_ok && !(ex == "tbs" && cl == "0") && overflow_class(&obs.res) {
         r = r.fail("within-limit-overflow", format!("{} bytes, limit {}: {}", plain.len(), eff_limit, obs.res));
     }
@@ -565,7 +614,8 @@ fn run_stream(case: &str, ex: &str) -> CaseResult {
         r = r.fail("pulled-after-header-refusal", format!("{} items pulled", cnt.pulled.get()));
     }
     if let Some(d) = declared {
-        if d > eff_limit && matches!(ex, "bytes" | "string" | "json" | "form") && (cnt.pulled.get() != 0 || !overflow_class(&obs.res)) {
+        // (`JsonBody::new` without `.limit()` documents that it does not look at the declared length)
+        if d > eff_limit && (matches!(ex, "bytes" | "string" | "json" | "form" | "ue") || (ex == "jb" && lim.is_some())) && (cnt.pulled.get() != 0 || !overflow_class(&obs.res)) {
             r = r.fail("declared-over-limit-read", format!("declared {} > limit {}: {} after pulling {}", d, eff_limit, obs.res, cnt.pulled.get()));
         }
     }
@@ -994,9 +1044,9 @@ fn random_cuts(rng: &mut Rng, len: usize, max_parts: usize, noise: bool) -> Vec<
 
 fn body_for(ex: &str, n: usize, rng: &mut Rng) -> String {
     match ex {
-        "json" if n >= 2 => format!("j:{}", n),
-        "form" if n >= 2 => format!("f:{}", n),
-        "json" | "form" => format!("x:{}", hexs(&vec![b'z'; n])),
+        "json" | "jb" if n >= 2 => format!("j:{}", n),
+        "form" | "ue" if n >= 2 => format!("f:{}", n),
+        "json" | "form" | "jb" | "ue" => format!("x:{}", hexs(&vec![b'z'; n])),
         "string" => {
             if n > 0 && rng.chance(1, 12) {
                 // invalid UTF-8
@@ -1021,7 +1071,7 @@ fn body_for(ex: &str, n: usize, rng: &mut Rng) -> String {
     }
 }
 
-const WEB: &[&str] = &["bytes", "string", "json", "form"];
+const WEB: &[&str] = &["bytes", "string", "json", "form", "jb", "ue"];
 const ENCS: &[&str] = &["id", "gz", "df", "br", "zs"];
 
 fn gen(ctx: &Ctx) -> Vec<String> {
@@ -1031,7 +1081,7 @@ fn gen(ctx: &Ctx) -> Vec<String> {
 
     // (A) exhaustive: every chunking of every body of ≤ 5 (6) bytes, limits 0..4, no declared length
     let maxlen = if thorough { 6 } else { 5 };
-    for ex in ["bytes", "string", "json", "form", "tbl", "tbs"] {
+    for ex in ["bytes", "string", "json", "form", "jb", "ue", "tbl", "tbs"] {
         for lim in 0..=4usize {
             for n in 0..=maxlen.min(lim + 2) {
                 let body = body_for(ex, n, &mut Rng::new(7));
@@ -1098,11 +1148,11 @@ fn gen(ctx: &Ctx) -> Vec<String> {
     }
 
     // (C) the default limits (no config in app data), ±1
-    for (ex, d) in [("bytes", 262_144usize), ("string", 262_144), ("json", 2_097_152), ("form", 16_384)] {
+    for (ex, d) in [("bytes", 262_144usize), ("string", 262_144), ("json", 2_097_152), ("form", 16_384), ("jb", 2_097_152), ("ue", 32_768)] {
         for n in [d - 1, d, d + 1] {
             let body = match ex {
-                "json" => format!("j:{}", n),
-                "form" => format!("f:{}", n),
+                "json" | "jb" => format!("j:{}", n),
+                "form" | "ue" => format!("f:{}", n),
                 "string" => format!("r:98:{}", n),
                 _ => format!("q:5:{}", n),
             };
@@ -1122,7 +1172,7 @@ fn gen(ctx: &Ctx) -> Vec<String> {
             let body = format!("r:0:{}", n);
             let w = compress(enc, &body_of_spec(&body)).len();
             for ex in WEB {
-                if *ex == "json" || *ex == "form" {
+                if *ex != "bytes" && *ex != "string" {
                     continue;
                 }
                 cases.push(stream_case(ex, &lim.to_string(), "none", enc, &body, &[Tok::Chunk(w)]));
@@ -1133,7 +1183,7 @@ fn gen(ctx: &Ctx) -> Vec<String> {
 
     // (E) random
     for _ in 0..ctx.budget(2500) {
-        let ex = *rng.pick(&["bytes", "string", "json", "form", "tbl", "tbs"]);
+        let ex = *rng.pick(&["bytes", "string", "json", "form", "jb", "ue", "tbl", "tbs"]);
         let lim = *rng.pick(&[0usize, 1, 2, 3, 5, 8, 13, 40, 100, 257, 1024, 4096]);
         let n = match rng.below(6) {
             0 => lim.saturating_sub(1),
